@@ -8,8 +8,9 @@ use rsbdd::parser::*;
 use rsbdd::NamedSymbol;
 use std::rc::Rc;
 
-pub fn conv_bin(op: BinaryOperator) -> Bin {
-    match op {
+/// None for an operator this harness does not know (a change may add one)
+pub fn conv_bin(op: BinaryOperator) -> Option<Bin> {
+    Some(match op {
         BinaryOperator::And => Bin::And,
         BinaryOperator::Or => Bin::Or,
         BinaryOperator::Xor => Bin::Xor,
@@ -18,7 +19,9 @@ pub fn conv_bin(op: BinaryOperator) -> Bin {
         BinaryOperator::Implies => Bin::Implies,
         BinaryOperator::ImpliesInv => Bin::ImpliesInv,
         BinaryOperator::Iff => Bin::Iff,
-    }
+        #[allow(unreachable_patterns)]
+        _ => return None,
+    })
 }
 pub fn impl_bin(op: Bin) -> BinaryOperator {
     match op {
@@ -32,14 +35,16 @@ pub fn impl_bin(op: Bin) -> BinaryOperator {
         Bin::Iff => BinaryOperator::Iff,
     }
 }
-pub fn conv_cmp(o: CountableOperator) -> Cmp {
-    match o {
+pub fn conv_cmp(o: CountableOperator) -> Option<Cmp> {
+    Some(match o {
         CountableOperator::AtMost => Cmp::AtMost,
         CountableOperator::LessThan => Cmp::LessThan,
         CountableOperator::AtLeast => Cmp::AtLeast,
         CountableOperator::MoreThan => Cmp::MoreThan,
         CountableOperator::Exactly => Cmp::Exactly,
-    }
+        #[allow(unreachable_patterns)]
+        _ => return None,
+    })
 }
 pub fn impl_cmp(o: Cmp) -> CountableOperator {
     match o {
@@ -62,13 +67,16 @@ pub fn conv(s: &SymbolicBDD) -> Option<Ast> {
         SymbolicBDD::Var(v) => Ast::Var(v.name.as_ref().clone()),
         SymbolicBDD::Reference(r) => Ast::Ref(r.clone()),
         SymbolicBDD::Not(x) => Ast::Not(bx(x)?),
-        SymbolicBDD::Quantifier(q, vs, b) => Ast::Q(*q == QuantifierType::Exists, vs.iter().map(|v| v.name.as_ref().clone()).collect(), bx(b)?),
-        SymbolicBDD::CountableConst(op, l, n) => Ast::CC(conv_cmp(*op), list(l)?, n.to_string()),
-        SymbolicBDD::CountableVariable(op, l, r) => Ast::CV(conv_cmp(*op), list(l)?, list(r)?),
+        SymbolicBDD::Quantifier(q, vs, b) => Ast::Q(match q { QuantifierType::Exists => true, QuantifierType::Forall => false, #[allow(unreachable_patterns)] _ => return None }, vs.iter().map(|v| v.name.as_ref().clone()).collect(), bx(b)?),
+        SymbolicBDD::CountableConst(op, l, n) => Ast::CC(conv_cmp(*op)?, list(l)?, n.to_string()),
+        SymbolicBDD::CountableVariable(op, l, r) => Ast::CV(conv_cmp(*op)?, list(l)?, list(r)?),
         SymbolicBDD::FixedPoint(v, g, b) => Ast::Fp(v.name.as_ref().clone(), fp_flag_is_gfp(*g), bx(b)?),
         SymbolicBDD::Ite(c, t, e) => Ast::Ite(bx(c)?, bx(t)?, bx(e)?),
-        SymbolicBDD::BinaryOp(op, l, r) => Ast::Bin(conv_bin(*op), bx(l)?, bx(r)?),
+        SymbolicBDD::BinaryOp(op, l, r) => Ast::Bin(conv_bin(*op)?, bx(l)?, bx(r)?),
         SymbolicBDD::Subtree(_) => return None,
+        // a node kind this harness does not know: no reference form
+        #[allow(unreachable_patterns)]
+        _ => return None,
     })
 }
 
